@@ -3184,7 +3184,14 @@ pub fn matrix_column_elements(&mut self, column_elements: &[&MatrixColumn]) -> S
       RealNumber::Hexadecimal(token) => format!("0x{}", token.to_string()),
       RealNumber::Octal(token) => format!("0o{}", token.to_string()),
       RealNumber::Binary(token) => format!("0b{}", token.to_string()),
-      RealNumber::Scientific(((whole, part), (sign, ewhole, epart))) => format!("{}.{}e{}{}.{}", whole.to_string(), part.to_string(), if *sign { "-" } else { "+" }, ewhole.to_string(), epart.to_string()),
+      RealNumber::Scientific(((whole, part), (sign, ewhole, epart))) => {
+        // the fractional parts of the mantissa and of the exponent are optional: `1.5e3` must not be printed as `1.5e+3.`
+        let part = part.to_string();
+        let epart = epart.to_string();
+        let mantissa = if part.is_empty() { whole.to_string() } else { format!("{}.{}", whole.to_string(), part) };
+        let exponent = if epart.is_empty() { ewhole.to_string() } else { format!("{}.{}", ewhole.to_string(), epart) };
+        format!("{}e{}{}", mantissa, if *sign { "-" } else { "+" }, exponent)
+      }
       RealNumber::Rational((numerator, denominator)) => format!("{}/{}", numerator.to_string(), denominator.to_string()),
       RealNumber::TypedInteger((token, kind_annotation)) => {
         let num = token.to_string();
